@@ -323,35 +323,51 @@ Theorem compiled_stack_restored :
 Proof. exact compiled_stack_restored_lemma. Qed.
 
 (* non-vacuity: in ex_module the inner for statement spans [6,20) at depth 1; the
-   machine is at pc 6 after 6 steps holding the lock of the outer list (object 0),
-   runs 10 steps through the inner loop (two iterators, the second on object 1) and
-   its break, never with fewer than 1 iterator, and stands at pc 20 holding again
-   exactly the outer lock; object 1's iterator count is back to 0 *)
-Example stack_example :
-  let cp := compile_prog ex_module in
-  let fname := fun _ : nat => "m" in
-  exists s s' f f',
-    reach cp fname (init_state cp 3) s /\ run_keeps cp fname 0 1 s s' /\
-    act 0 s = Some f /\ act 0 s' = Some f' /\
-    fr_code f = gen_body ex_module (layout_top ex_module) (p_body ex_module) /\
-    fr_pc f = 6 /\ fr_pc f' = 20 /\ locks f = [Some 2] /\ locks f' = [Some 2] /\
-    (exists sm fm, nsteps cp fname 6 s = Some sm /\ act 0 sm = Some fm /\ locks fm = [Some 3; Some 2]) /\
+   machine is at pc 6 after 6 steps holding the lock of the outer list (object 2),
+   runs 10 steps through the inner loop (after 6 of them: pc 12, two iterators, the
+   newer one on object 3, whose iterator count is 1) and through its break, never
+   with fewer than 1 iterator, and stands at pc 20 holding again exactly the outer
+   lock; object 3's iterator count is back to 0 *)
+Definition ex_cp := compile_prog ex_module.
+Definition ex_fn := fun _ : nat => "m".
+Definition ex_obs (s : vstate) : option (nat * list (option nat)) :=
+  match act 0 s with Some f => Some (fr_pc f, locks f) | None => None end.
+
+Example stack_example_run :
+  exists s s' sm,
+    nsteps ex_cp ex_fn 6 (init_state ex_cp 3) = Some s /\
+    keeps_n ex_cp ex_fn 0 1 10 s = Some s' /\
+    nsteps ex_cp ex_fn 6 s = Some sm /\
+    ex_obs s = Some (6, [Some 2]) /\ ex_obs sm = Some (12, [Some 3; Some 2]) /\ ex_obs s' = Some (20, [Some 2]) /\
+    option_map fr_code (act 0 s) = Some (gen_body ex_module (layout_top ex_module) (p_body ex_module)) /\
+    option_map fr_code (act 0 s') = Some (gen_body ex_module (layout_top ex_module) (p_body ex_module)) /\
+    get_obj (vs_w sm) 3 = Some (OList [VInt 3; VInt 4] 1) /\
     get_obj (vs_w s') 3 = Some (OList [VInt 3; VInt 4] 0).
 Proof.
-  cbv zeta.
-  destruct (nsteps (compile_prog ex_module) (fun _ => "m") 6 (init_state (compile_prog ex_module) 3)) as [s|] eqn:E;
-    [|vm_compute in E; discriminate].
-  destruct (keeps_n (compile_prog ex_module) (fun _ => "m") 0 1 10 s) as [s'|] eqn:E';
-    [|vm_compute in E; inversion E; subst; vm_compute in E'; discriminate].
-  destruct (act 0 s) as [f|] eqn:A; [|vm_compute in E; inversion E; subst; vm_compute in A; discriminate].
-  destruct (act 0 s') as [f'|] eqn:A';
-    [|vm_compute in E; inversion E; subst; vm_compute in E'; inversion E'; subst; vm_compute in A'; discriminate].
-  exists s, s', f, f'.
-  split; [eapply nsteps_reach; eauto|]. split; [eapply keeps_n_sound; eauto|].
-  split; [reflexivity|]. split; [reflexivity|].
-  vm_compute in E; inversion E; subst; clear E.
-  vm_compute in E'; inversion E'; subst; clear E'.
-  vm_compute in A; inversion A; subst; clear A.
-  vm_compute in A'; inversion A'; subst; clear A'.
-  vm_compute. repeat split. do 2 eexists. repeat split.
+  eexists. eexists. eexists.
+  split; [vm_compute; reflexivity|].
+  split; [vm_compute; reflexivity|].
+  split; [vm_compute; reflexivity|].
+  vm_compute. repeat split.
+Qed.
+
+(* ... so the premises of compiled_stack_restored hold together *)
+Example stack_example :
+  exists s s' f f',
+    reach ex_cp ex_fn (init_state ex_cp 3) s /\ run_keeps ex_cp ex_fn 0 1 s s' /\
+    act 0 s = Some f /\ act 0 s' = Some f' /\
+    fr_code f = gen_body ex_module (layout_top ex_module) (p_body ex_module) /\
+    fr_code f' = gen_body ex_module (layout_top ex_module) (p_body ex_module) /\
+    List.In (6, 20, 1, true) (spans_block ex_module (layout_top ex_module) 0 0 (p_body ex_module)) /\
+    fr_pc f = 6 /\ fr_pc f' = 20 /\ locks f = [Some 2] /\ locks f' = [Some 2].
+Proof.
+  destruct stack_example_run as (s & s' & sm & E1 & E2 & _ & O1 & _ & O2 & C1 & C2 & _).
+  unfold ex_obs in O1, O2.
+  destruct (act 0 s) as [f|] eqn:A; [|discriminate]. destruct (act 0 s') as [f'|] eqn:A'; [|discriminate].
+  exists s, s', f, f'. injection O1 as P1 L1. injection O2 as P2 L2.
+  cbn [option_map] in C1, C2. injection C1 as K1. injection C2 as K2.
+  split; [eapply nsteps_reach; exact E1|]. split; [eapply keeps_n_sound; exact E2|].
+  split; [exact A|]. split; [exact A'|]. split; [exact K1|]. split; [exact K2|].
+  split; [vm_compute; right; left; reflexivity|].
+  split; [exact P1|]. split; [exact P2|]. split; [exact L1 | exact L2].
 Qed.
